@@ -9,7 +9,7 @@ TABLES = os.path.join(os.path.dirname(os.path.dirname(os.path.abspath(__file__))
 def run(ctx):
     ctx.clause = ("in everything reachable from equality, hashing, canonicalisation and diffing a source location is "
                   "only ever copied, never compared, branched on, ordered or hashed (one listed kernel-only exception)")
-    ctx.rules = ["R-NOLOC", "R-LOOPMEMO", "R-NOPARMNAME"]
+    ctx.rules = ["R-NOLOC", "R-LOOPMEMO", "R-NOPARMNAME", "R-DECLORDER"]
     with open(os.path.join(TABLES, "noloc_exceptions.json")) as fh:
         exc = json.load(fh)["deciding_readers"]
     P = ctx.program(None)
@@ -20,9 +20,71 @@ def run(ctx):
     k = memokey_rule.check_loopmemo(ctx, P, [f for f in P.all_funcs() if f.relfile.startswith("src/")])
     ctx.note("R-LOOPMEMO: %d flag-guarded computation(s) inside loops in the library" % k)
     check_noparmname(ctx, P)
+    check_declorder(ctx, P)
     ctx.assume("other neutral edits (translation-unit layout, declaration order, DIE de-duplication) are runtime "
                "behaviour and are not decided")
 
+
+
+# sequences of a class that are kept in *declaration* order and hold entities that have no place in the layout: walking two
+# of them in lock-step makes the verdict depend on where a declaration was written
+DECL_ORDER_ONLY = {
+    "get_data_members": "non-static members followed / interleaved with static ones, in the order they were declared; a "
+                        "static data member takes no part in the layout",
+    "get_member_functions": "declaration order; DWARF does not even list all of them in every unit",
+    "get_member_types": "declaration order of nested types",
+    "get_member_decls": "every member declaration, in source order",
+}
+
+
+def check_declorder(ctx, P):
+    """R-DECLORDER: moving a declaration inside a class is ABI neutral unless it moves a non-static data member, a base or
+    a virtual function.  The structural comparisons ir::equals(class_or_union / class_decl / union_decl) walk pairs of
+    member sequences in lock-step; no such walk is over a sequence of DECL_ORDER_ONLY (a table with its reasons): two
+    iterators initialised from `l.X()` and `r.X()` and advanced together, with X kept in declaration order."""
+    from engine.facts import walk, call_args, member_call_object, expr_str
+    from engine.cfg import strip_casts
+    from engine.compdb import AnalysisBroken
+    fs = [f for f in P.fn("abigail::ir::equals") if not f.dep and f.cfg() is not None and
+          any(w in f.sig for w in ("class_or_union &", "class_decl &", "union_decl &"))]
+    if len(fs) < 2:
+        raise AnalysisBroken("anchor vanished: ir::equals for class_or_union / class_decl")
+    n = 0
+    for f in sorted(fs, key=lambda x: x.l0):
+        ops = set(f.r["params"][:2])
+        for L in f.nodes():
+            if L["k"] not in ("ForStmt", "WhileStmt"):
+                continue
+            # accessors of l / r whose begin() initialises an iterator of the loop, or is compared in its condition
+            head = [c for c in L["c"][:-1] if c is not None]
+            acc = []
+            for h in head:
+                for x in walk(h):
+                    if x["k"] == "CXXMemberCallExpr" and (f.decl(x) or {}).get("n") in ("begin", "cbegin"):
+                        o = strip_casts(member_call_object(x))
+                        if o is not None and o["k"] == "DeclRefExpr" and o.get("d") not in ops:
+                            # a local (reference) that holds the sequence
+                            for v in f.nodes():
+                                if v["k"] == "VarDecl" and v.get("d") == o.get("d") and v.get("c") and v["c"][0] is not None:
+                                    o = strip_casts(v["c"][0])
+                                    while o is not None and o["k"] in ("CXXConstructExpr", "MaterializeTemporaryExpr", "ExprWithCleanups") and len(o.get("c", [])) == 1:
+                                        o = strip_casts(o["c"][0])
+                                    break
+                        if o is not None and o["k"] == "CXXMemberCallExpr" and \
+                                any(y["k"] == "DeclRefExpr" and y.get("d") in ops for y in walk(member_call_object(o))):
+                            acc.append((f.decl(o) or {}).get("n"))
+            if len(acc) < 2 or len(set(acc)) != 1:
+                continue
+            n += 1
+            ctx.analysed(f)
+            name = acc[0]
+            sig = f.sig.split("(")[1].split(",")[0].replace("const ", "").replace(" &", "").split("::")[-1]
+            ok = name not in DECL_ORDER_ONLY
+            ctx.ob("R-DECLORDER", "equals(%s): the lock-step walk over %s() is not over a declaration-ordered sequence" % (sig, name), ok, f.loc(L),
+                   "%s() is not one of the sequences kept in declaration order (%s)" % (name, ", ".join(sorted(DECL_ORDER_ONLY))) if ok else
+                   "%s() is in declaration order (%s): two classes with the same layout compare different when a declaration "
+                   "is moved, and every function that reaches the class is reported" % (name, DECL_ORDER_ONLY[name]))
+    ctx.floor("R-DECLORDER", "lock-step member walks in the class comparisons", n, 3)
 
 
 def check_noparmname(ctx, P):
